@@ -28,8 +28,12 @@ def scenarios(rng, tier, runner):
         comp = rng.choice([0, 1, 1])
         ls, meta = datasets.build_lines(rng, name, B, D, nsub=rng.choice([1, 2, 3, 4]) if comp else None,
                                         same_structure=bool(comp) and rng.random() < 0.85,
-                                        edition=rng.choice([3, 4, 4]))
+                                        edition=rng.choice([2, 3, 4, 4]))
         ls += ["ds.invalid", "ds.encode %d" % comp, "spec.decode"]
+        if i % 3 == 0:
+            # the whole message: Section 3 and the framing of the sections, read independently (gen/frame.py)
+            from props import c07
+            ls += ["ds.hdr s " + c07._hdr_keys(rng, meta["ed"]), "ds.msg s %d" % comp]
         meta["comp"] = comp
         out.append(Scenario("wire-%d" % i, ls, meta))
     from props import c02
@@ -54,6 +58,42 @@ def compare(scn, lscn, cr, lr):
         if l.startswith("spec.decode") and i < len(c_out) and i < len(l_out):
             c_out[i] = l_out[i]          # the implementation has no counterpart of the spec op
     return cmp0(scn, (c_out, cr[1]), (l_out, lr[1]), None)
+
+def oracle(scn, outs):
+    """the whole message (`ds.msg`): sections framed as FM 94 prescribes for the edition, Section 3 = subset count,
+    flags and the template's descriptors, Section 4 = the data `ds.encode` produced (zero fill to an even length up
+    to edition 3 only)"""
+    if len(outs) != len(scn.lines):
+        return None
+    from gen import frame
+    tm = next((l.split() for l in scn.lines if l.startswith("tm.new")), None)
+    enc = None
+    for l, o in zip(scn.lines, outs):
+        if l.startswith("ds.encode"):
+            enc = o.split()         # the data as last encoded (new reference values are settled by a first encode)
+        if not l.startswith("ds.msg ") or not tm or not enc or len(enc) != 3:
+            continue
+        if not o or any(ch not in "0123456789abcdef" for ch in o):
+            continue
+        try:
+            pm = frame.parse(bytes.fromhex(o))
+        except ValueError as e:
+            return "whole message: %s" % e
+        ed = int(tm[1]); descs = [int(d) for d in tm[2:]]
+        if pm["edition"] != ed:
+            return "whole message: edition %d written for a template of edition %d" % (pm["edition"], ed)
+        if pm["descs"] != descs:
+            return "whole message: Section 3 lists %s, the template is %s" % (pm["descs"][:12], descs[:12])
+        if pm["nsub"] != int(enc[1]):
+            return "whole message: Section 3 announces %d subsets, %s were encoded" % (pm["nsub"], enc[1])
+        if bool(pm["flag"] & 64) != bool(int(enc[0]) & 64):
+            return "whole message: compression flag of Section 3 does not say how Section 4 was written"
+        data = bytes.fromhex(enc[2]) if enc[2] != "-" else b""
+        body = pm["s4"]
+        fill = body[len(data):]
+        if body[:len(data)] != data or any(fill) or len(fill) > (1 if ed <= 3 else 0):
+            return "whole message: Section 4 is not the encoded data (%d octets of data, %d in the section)" % (len(data), len(body))
+    return None
 
 DATA_TYPES = (4, 5, 6, 7, 8, 9)
 
